@@ -54,8 +54,8 @@ class VariableCacheProvider:
         """
         self.__cache = {}
         self.__pinned = []
-        # keeping the previous cache keeps the values it has pinned: their ids stay theirs until the snapshot is done
-        self.__previous = previous
+        # (only the count is taken over: the previous cache, and with it the values it has pinned, is let go - this
+        # cache knows none of its identities, so an id of the previous cache cannot be handed to another object here)
         self.__used = previous.size if previous is not None else 0
 
     def continued(self) -> 'VariableCacheProvider':
@@ -64,7 +64,8 @@ class VariableCacheProvider:
 
         A deferred snapshot records the frame when the function is entered and the returned value when it ends. In
         between the application runs: a value that was recorded at entry can have changed, and must be recorded as
-        it is now, not referred to as it was.
+        it is now, not referred to as it was. And what was recorded at entry must not be kept alive until then: the
+        objects of the application are released when the application lets go of them, not when the function ends.
 
         :return: the new cache
         """
